@@ -401,6 +401,17 @@ theorem destroyClock_inv {s s' : State} {c : Nat} (hI : Inv s) (hr : destroyCloc
     · left; rw [← e1]; exact e)
   exact ⟨⟨hE, hG, hC1, hId, killclock_ca hA1 hC1 c hz, hD1, hK1⟩, hO⟩
 
+theorem typedConnect_spec {s s' : State} {cls h i : Nat} {d : Option NodePort} (hE : E s) (hr : typedConnect s cls h i d = .ok s') :
+    ∃ ip c ct, s' = { s with conns := c, inp := ip, ctype := ct } ∧ EdgeInv s.size s.alive s.numIn ip s.numOut c := by
+  unfold typedConnect at hr
+  split at hr
+  · cases hr
+  obtain ⟨s1, h1, hr⟩ := bind_ok.mp hr
+  obtain ⟨ip, c, rfl, hE1, _⟩ := connect_spec hE h1
+  obtain ⟨t, _, hr⟩ := bind_ok.mp hr
+  obtain ⟨ct, rfl⟩ := setType_spec hr
+  exact ⟨ip, c, ct, rfl, hE1⟩
+
 /-- every operation preserves the invariant -/
 theorem inv_step {s s' : State} (op : Op) (hI : Inv s) (hr : step s op = .ok s') : Inv s' := by
   obtain ⟨⟨hE, hG, hC, hId, hA, hD, hK⟩, hO⟩ := hI
@@ -513,6 +524,19 @@ theorem inv_step {s s' : State} (op : Op) (hI : Inv s) (hr : step s op = .ok s')
   | getClockedNodes c =>
     obtain ⟨hK1, ca, rfl⟩ := getClockedNodes_cache hC hK hr
     exact ⟨⟨hE, hG, hC, hId, hA, hD, hK1⟩, hO⟩
+  | typedConnect cls h i d =>
+    obtain ⟨ip, c, ct, rfl, h1⟩ := typedConnect_spec hE hr
+    exact ⟨⟨h1, hG, hC, hId, hA, hD, hK⟩, hO⟩
+
+/-- … and so does an operation that throws (the half-done typed connect included) -/
+theorem inv_afterThrow {s : State} (op : Op) (hI : Inv s) : Inv (afterThrow s op) := by
+  cases op
+  case typedConnect cls h i d =>
+    simp only [afterThrow]
+    split
+    · rename_i s1 h1; exact inv_step (.connect h i d) hI h1
+    · exact hI
+  all_goals exact hI
 
 theorem inv_run (ops : List Op) : ∀ {s s' : State}, Inv s → run s ops = .ok s' → Inv s' := by
   induction ops with
@@ -522,7 +546,7 @@ theorem inv_run (ops : List Op) : ∀ {s s' : State}, Inv s → run s ops = .ok 
     unfold run at hr
     split at hr
     · rename_i s1 h1; exact ih (inv_step op hI h1) hr
-    · exact ih hI hr
+    · exact ih (inv_afterThrow op hI) hr
     · cases hr
 
 end Gatery.C09
